@@ -25,7 +25,8 @@ REGISTRY = dict(
     text=("Proof (unbounded): after any history of add / truncate_last_trajectory / pickle round trips, for every capacity, n_envs and episode-length sequence (episodes wrapping the ring and "
           "longer than it included), every sampleable slot lies in a recorded segment whose slots hold consecutive, not overwritten transitions of one finished episode ending at the segment's last slot; "
           "the goal slot of every admissible draw of 'future' / 'final' / 'episode' is in that same episode (at or after the transition / its last transition / any); a relabelled sample keeps obs, action, "
-          "next obs, done, replaces the desired goal identically in obs and next obs, reward = compute_reward(next achieved, new goal); the relabelled share is floor(n*B/(n+1)). "
+          "next obs, done, replaces the desired goal identically in obs and next obs, reward = compute_reward(next achieved, new goal); the relabelled share is floor(n*B/(n+1)); real samples obey the ring law of C03 (one add among the last capacity, slot = add mod capacity); "
+          "candidates = exactly the sampleable cells, relabelled + real = batch size. "
           "Tie: bookkeeping arithmetic, goal index expressions and the share formula are regenerated from her_replay_buffer.py on every run + exhaustive sample-table correspondence."),
     note=("Trusted: Coq 8.16.1 kernel (vm_compute, no native_compute), translate/py2coq.py + specs/her.py, harness/c16.py, Python/numpy/torch/gymnasium. "
           "Not verified: numpy fancy indexing and negative indexing (pos - 1 at pos = 0), np.arange, VecEnv.env_method, pickle (covered by the correspondence only); "
